@@ -152,6 +152,13 @@ add("C20", "wallet", "exploration",
     "go through TransactionBuilder::new(..).build_transaction(); the result must be an error or a transaction whose FIFO sat positions, inputs, change outputs, dust limits, target bounds and fee satisfy every clause of the property; a panic is a violation.",
     "The builder is driven directly with hand-made wallet views; values outside the lattice are not covered. One genuine defect is recorded as a known finding (KF-C20-1).", "DESIGN.md section 5 C20")
 
+add("C19", "server", "exploration",
+    "complete product enumeration of inscription content shapes x routes x Accept-Encoding x server configurations against a live in-process server",
+    "A zoo chain with the full product of content-type kinds x content-encoding kinds x body kinds, every delegate shape (existing, missing, hidden, chained, self, with own body) and three inscriptions on one sat is "
+    "indexed and served by the real Server::run; /content, /r/undelegated-content, /preview and /r/sat/<n>/at/<i>/content are requested with four Accept-Encoding values under four server configurations, plus ~30 other routes "
+    "and error responses; body, content type, encoding handling, CSP header presence and grammar, hidden-list enforcement and cache-control are judged against the property.",
+    "CSP is judged as header text against an allow-list grammar, not by a browser. Environment = mockcore + loopback HTTP. Undocumented content encodings are only required not to yield 5xx.", "DESIGN.md sections 4 (E7) and 5 C19")
+
 NOT_YET = "check not built yet in this round (see DESIGN.md build order); not claimed"
 
 def main():
